@@ -499,3 +499,28 @@ def run_out(cases, seed=0):
 
     vloop.run(main)
     return out
+
+
+
+def run_frames(texts):
+    """C17: every encoded text, written as one line, must come out of the real stdio reader as
+    exactly one message.  texts: list of JSON texts of JSON-RPC notifications.  Returns the list of
+    dumps of what was delivered."""
+    from chuk_mcp.transports.stdio.stdio_client import StdioClient
+
+    out = []
+
+    async def main():
+        with seam() as procs:
+            client = StdioClient(params())
+            async with client:
+                proc = procs[0]
+                for i in range(0, len(texts), 40):
+                    chunk = "".join(t + "\n" for t in texts[i:i + 40]).encode("utf-8")
+                    proc.stdout.feed(chunk)
+                    got, gotn = [], []
+                    await _settle(client, got, gotn)
+                    out.extend(m.model_dump(exclude_none=True) if hasattr(m, "model_dump") else m for m in got)
+
+    vloop.run(main)
+    return out
